@@ -113,6 +113,21 @@ fixed("C11", "unlisted:rendering-rejected", "8ec82f4", "a dict-unpacking operand
 # ---------------------------------------------------------------- C12
 known("C12", "visitor-does-not-descend-into-product-nodes", "the default Visitor has empty generic_visit bodies for the product node types (arguments, arg, keyword, alias, withitem, match_case, comprehension), so every statement/expression/pattern beneath them is never reached (generator emits empty bodies for products; a repair means changing ast/asdl_rs.py incl. its boxing rules and regenerating)", "f(k=x)")
 
+# ---------------------------------------------------------------- C13
+known("C13", "linear-locator-class-keyword-before-base", "LinearLocator visits class bases before keywords; when a keyword precedes a (starred) base in the source its cursor goes backwards: self-check panic with debug assertions, wrong or panicking locations afterwards without", "class A(x=1, *b): pass")
+known("C13", "linear-locator-concatenated-fstring-pieces", "the two locators disagree on the pieces of implicitly concatenated f-strings (linear gives every piece the whole literal's location, indexed uses each piece's own token range)", "'a' f'{b}'")
+known("C13", "linear-locator-offset-before-bom-end-panics", "LinearLocator::locate of an offset before the end of a leading BOM (e.g. an error at offset 0 of a BOM file) panics; RandomLocator answers (1, 1)", "LinearLocator::new('\\u{feff}').locate(0)")
+known("C13", "linear-locator-offset-inside-crlf-from-shifted-fstring-range", "an expression range inside a CRLF-containing f-string is shifted (C02 finding) and can start between CR and LF; the linear locator then counts that line break twice and is one line ahead for the rest of the file, the indexed locator is not", "f\'\'\'\\r\\n{x}\'\'\'")
+known("C13", "linear-locator-parameter-default-outside-its-range", "under all-nodes-with-ranges a parameter-with-default node ends before its default (C02 finding), so the linear locator's cursor goes backwards", "def f(a=1): pass")
+known("C13", "linear-locator-shared-withitem-range", "under all-nodes-with-ranges the items of `with (a, b):` share one range (C02 finding); the linear locator's cursor goes backwards", "with (a, b): pass")
+known("C13", "linear-locator-empty-lambda-arguments-range", "under all-nodes-with-ranges the empty parameter list of `lambda: 0` has the lambda's range (C02 finding); the linear locator's cursor goes backwards", "lambda: 0")
+known("C13", "linear-locator-bom-module-range-starts-at-zero", "under all-nodes-with-ranges the Mod* node starts at offset 0, before the end of a leading BOM; the linear locator panics", "'\\u{feff}x = 1'")
+
+# ---------------------------------------------------------------- C04
+known("C04", "bare-star-directly-before-kwargs-accepted", "`def f(*, **k)` / `lambda a, *, **k: 0` (a bare * followed only by **kwargs) is accepted; Python: named arguments must follow bare *", "def f(*, **k): pass")
+known("C04", "error-inside-fstring-field-located-at-field-start", "a rule violation inside an f-string replacement field is reported (wrapped in FStringError(InvalidExpression(..))) at the start of the field's expression instead of inside the offending construct", "f'{(lambda x, x: x)(1)}'")
+known("C04", "lexical-error-on-soft-keyword-line-reported-as-unexpected-name", "a lexical error on a logical line that starts with match/case/type: the soft-keyword look-ahead stops at the error, the keyword is demoted to a name and the parser reports an unexpected token earlier on the line instead of the lexical error", "match x:\n    case 1 $: pass")
+
 # further per-property tables are appended by findings_*.py fragments (one per check family)
 if __name__ == "__main__":
     import os
